@@ -962,6 +962,9 @@ func (c *ctx) replay(lines []string) error {
 				chunks = append(chunks, string(b))
 			}
 			c.nego(negoWitness{role: f[2], mechs: f[3], chunks: chunks}, "replay")
+		case "muchand":
+			// the three cases are cheap: replaying one runs the whole (deterministic) domain
+			c.mucHandover()
 		case "formsubmit":
 			if len(f) != 4 {
 				return fmt.Errorf("bad replay line %q", l)
